@@ -200,21 +200,18 @@ func runC02(e *Engine, r *Report) {
 			return false
 		}
 		n = 0
-		for _, name := range []string{"update", "noop", "registerSession", "unregisterSession"} {
+		// directly, in a deferred call, in a locked closure or in a helper:
+		// every normal return of the step has executed setApplied
+		always := e.AlwaysReaches(func(c ssa.CallInstruction) bool { return e.CallsTo(c, setApplied) }, 3)
+		for _, name := range []string{"update", "noop", "registerSession", "unregisterSession", "configChange"} {
 			fn := r.need("(*internal/rsm.StateMachine)." + name)
 			if fn == nil {
 				continue
 			}
 			n++
 			res := e.findPath(fn, nil, isReturn, isSet, nil)
-			r.check(!res.Found, "MPT-setapplied", name+" passes setApplied on every exit", e.pos(fn.Pos()),
+			r.check(!res.Found || always[fn], "MPT-setapplied", name+" passes setApplied on every exit", e.pos(fn.Pos()),
 				"the gap/term assertion and index advance happen on every path", "a path through "+name+" returns without advancing/asserting the applied index")
-		}
-		// configChange: inside its locked closure
-		if cc := r.need("(*internal/rsm.StateMachine).configChange$1"); cc != nil {
-			n++
-			res := e.findPath(cc, nil, isReturn, isSet, nil)
-			r.check(!res.Found, "MPT-setapplied", "configChange passes setApplied on every exit", e.pos(cc.Pos()), "assertion on every path", "a path through configChange skips setApplied")
 		}
 		// handleBatch: one setApplied per input entry: both loop bodies call it
 		if hb := r.need("(*internal/rsm.StateMachine).handleBatch"); hb != nil {
@@ -366,8 +363,10 @@ func runDET(e *Engine, r *Report) {
 						}
 					}
 					r.add(Ob{Rule: "DET", Construct: key, Pos: e.ipos(in), OK: true, Detail: "order-independent loop (confirmed by reading): " + reason})
+				} else if ok, why := e.orderIndependentRange(x); ok {
+					r.add(Ob{Rule: "DET", Construct: key, Pos: e.ipos(in), OK: true, Detail: "order-independent loop (structural: pure search / per-key map update / sorted afterwards)"})
 				} else {
-					r.bad("DET", key, e.ipos(in), "iteration over a map on the replicated-state path is not on the list of loops confirmed to be order-independent")
+					r.bad("DET", key, e.ipos(in), "iteration over a map on the replicated-state path is neither structurally order-independent ("+why+") nor on the list of loops confirmed by reading")
 				}
 			}
 		})
